@@ -1,6 +1,7 @@
 pub mod vclock;
 pub mod lattice;
 pub mod orswot;
+pub mod mvreg;
 
 use serde::{de::DeserializeOwned, Serialize};
 
